@@ -244,7 +244,15 @@ class MetadorNode(wrapt.ObjectProxy):
             # allow child nodes of local-only nodes to go up to the marked parent
             # (or it is None, if this is the local root)
             if lp := self._self_local_parent:
-                return lp
+                if all(lp.acl[flag] for flag, value in self.acl.items() if value):
+                    return lp
+                # restrictions added to this node after it was derived must not be lost
+                return MetadorGroup(
+                    lp._self_container,
+                    lp.__wrapped__,
+                    local_parent=lp._self_local_parent,
+                    **{k.name: True for k in NodeAcl if self.acl[k] or lp.acl[k]},
+                )
             else:
                 # raise exception (illegal non-local access)
                 self._guard_acl(NodeAcl.local_only, "parent")
